@@ -19,7 +19,7 @@ Lemma add_ssaaaa_spec ah al bh bl :
   let '(h, l) := add_ssaaaa ah al bh bl in
   0 <= h < W /\ 0 <= l < W /\ l + W * h = (al + W * ah + bl + W * bh) mod (W * W).
 Proof.
-  intros. unfold add_ssaaaa. rewrite W_eq in *.
+  intros. unfold add_ssaaaa. rewrite ?modW_eq, ?divW_eq in *; rewrite W_eq in *.
   destruct (Z.ltb_spec ((al + bl) mod 18446744073709551616) al); cbn [b2z]; repeat split; lia.
 Qed.
 
@@ -28,7 +28,7 @@ Lemma sub_ddmmss_spec ah al bh bl :
   let '(h, l) := sub_ddmmss ah al bh bl in
   0 <= h < W /\ 0 <= l < W /\ l + W * h = (al + W * ah - (bl + W * bh)) mod (W * W).
 Proof.
-  intros. unfold sub_ddmmss. rewrite W_eq in *.
+  intros. unfold sub_ddmmss. rewrite ?modW_eq, ?divW_eq in *; rewrite W_eq in *.
   destruct (Z.ltb_spec al bl); cbn [b2z]; repeat split; lia.
 Qed.
 
@@ -55,7 +55,7 @@ Lemma add_wc_spec k : forall b c cy, wf k b -> wf k c ->
   val k (fst (add_wc k b c cy)) + B k * b2z (snd (add_wc k b c cy)) = val k b + val k c + b2z cy.
 Proof.
   induction k as [|k IH]; intros b c cy Hb Hc.
-  - cbn [add_wc wf val B] in *. rewrite W_eq in *.
+  - cbn [add_wc wf val B] in *. rewrite ?modW_eq, ?divW_eq in *; rewrite W_eq in *.
     destruct cy; cbn [fst snd b2z]; limb_cases; cbn [b2z]; lia.
   - destruct k as [|k].
     + (* ruint<7> *)
@@ -71,11 +71,11 @@ Proof.
         destruct (add_ssaaaa h l 0 1) as [h' l']. destruct H2 as (Hh' & Hl' & E').
         cbn [fst snd]. split; [cbn [wf fst snd]; auto|].
         rewrite le_spec by (cbn [wf fst snd]; auto).
-        rewrite !val_S. cbn [val fst snd B b2z]. rewrite W_eq in *.
+        rewrite !val_S. cbn [val fst snd B b2z]. rewrite ?modW_eq, ?divW_eq in *; rewrite W_eq in *.
         destruct (Z.leb_spec (l' + 18446744073709551616 * h') (bl + 18446744073709551616 * bh)); cbn [b2z]; lia.
       * cbn [fst snd]. split; [cbn [wf fst snd]; auto|].
         rewrite lt_spec by (cbn [wf fst snd]; auto).
-        rewrite !val_S. cbn [val fst snd B b2z]. rewrite W_eq in *.
+        rewrite !val_S. cbn [val fst snd B b2z]. rewrite ?modW_eq, ?divW_eq in *; rewrite W_eq in *.
         destruct (Z.ltb_spec (l + 18446744073709551616 * h) (bl + 18446744073709551616 * bh)); cbn [b2z]; lia.
     + (* generic recursion *)
       destruct b as [bl bh], c as [cl ch]. destruct Hb as [Hb1 Hb2], Hc as [Hc1 Hc2].
@@ -97,7 +97,7 @@ Lemma add_c_spec k : forall b c, wf k b -> wf k c ->
   val k (fst (add_c k b c)) + B k * b2z (snd (add_c k b c)) = val k b + val k c.
 Proof.
   induction k as [|k IH]; intros b c Hb Hc.
-  - cbn [add_c wf val B fst snd] in *. rewrite W_eq in *. limb_cases; cbn [b2z]; lia.
+  - cbn [add_c wf val B fst snd] in *. rewrite ?modW_eq, ?divW_eq in *; rewrite W_eq in *. limb_cases; cbn [b2z]; lia.
   - destruct k as [|k].
     + destruct b as [bl bh], c as [cl ch]. destruct Hb as [Hb1 Hb2], Hc as [Hc1 Hc2].
       cbn [wf fst snd] in *. cbn [add_c fst snd].
@@ -105,7 +105,7 @@ Proof.
       destruct (add_ssaaaa bh bl ch cl) as [h l]. destruct H1 as (Hh & Hl & E).
       cbn [fst snd]. split; [cbn [wf fst snd]; auto|].
       rewrite lt_spec by (cbn [wf fst snd]; auto).
-      rewrite !val_S. cbn [val fst snd B b2z]. rewrite W_eq in *.
+      rewrite !val_S. cbn [val fst snd B b2z]. rewrite ?modW_eq, ?divW_eq in *; rewrite W_eq in *.
       destruct (Z.ltb_spec (l + 18446744073709551616 * h) (bl + 18446744073709551616 * bh)); cbn [b2z]; lia.
     + destruct b as [bl bh], c as [cl ch]. destruct Hb as [Hb1 Hb2], Hc as [Hc1 Hc2].
       cbn [fst snd] in *.
@@ -128,7 +128,7 @@ Lemma add_w_spec k : forall b c, wf k b -> 0 <= c < W ->
   val k (fst (add_w k b c)) + B k * b2z (snd (add_w k b c)) = val k b + c.
 Proof.
   induction k as [|k IH]; intros b c Hb Hc.
-  - cbn [add_w wf val B fst snd] in *. rewrite W_eq in *. limb_cases; cbn [b2z]; lia.
+  - cbn [add_w wf val B fst snd] in *. rewrite ?modW_eq, ?divW_eq in *; rewrite W_eq in *. limb_cases; cbn [b2z]; lia.
   - destruct k as [|k].
     + destruct b as [bl bh]. destruct Hb as [Hb1 Hb2].
       cbn [wf fst snd] in *. cbn [add_w fst snd].
@@ -136,7 +136,7 @@ Proof.
       pose proof (add_ssaaaa_spec bh bl 0 c Hb2 Hb1 H0 Hc) as H1.
       destruct (add_ssaaaa bh bl 0 c) as [h l]. destruct H1 as (Hh & Hl & E).
       cbn [fst snd]. split; [cbn [wf fst snd]; auto|].
-      rewrite !val_S. cbn [val fst snd B b2z]. rewrite W_eq in *.
+      rewrite !val_S. cbn [val fst snd B b2z]. rewrite ?modW_eq, ?divW_eq in *; rewrite W_eq in *.
       limb_cases; cbn [b2z]; lia.
     + destruct b as [bl bh]. destruct Hb as [Hb1 Hb2].
       cbn [fst snd] in *.
@@ -159,7 +159,7 @@ Lemma add_1_spec k : forall b, wf k b ->
   val k (fst (add_1 k b)) + B k * b2z (snd (add_1 k b)) = val k b + 1.
 Proof.
   induction k as [|k IH]; intros b Hb.
-  - cbn [add_1 wf val B fst snd] in *. rewrite W_eq in *. limb_cases; cbn [b2z]; lia.
+  - cbn [add_1 wf val B fst snd] in *. rewrite ?modW_eq, ?divW_eq in *; rewrite W_eq in *. limb_cases; cbn [b2z]; lia.
   - destruct k as [|k].
     + destruct b as [bl bh]. destruct Hb as [Hb1 Hb2].
       cbn [wf fst snd] in *. cbn [add_1 fst snd].
@@ -168,7 +168,7 @@ Proof.
       pose proof (add_ssaaaa_spec bh bl 0 1 Hb2 Hb1 H0 H01) as H1.
       destruct (add_ssaaaa bh bl 0 1) as [h l]. destruct H1 as (Hh & Hl & E).
       cbn [fst snd]. split; [cbn [wf fst snd]; auto|].
-      rewrite !val_S. cbn [val fst snd B b2z]. rewrite W_eq in *.
+      rewrite !val_S. cbn [val fst snd B b2z]. rewrite ?modW_eq, ?divW_eq in *; rewrite W_eq in *.
       limb_cases; cbn [b2z andb]; lia.
     + destruct b as [bl bh]. destruct Hb as [Hb1 Hb2].
       cbn [fst snd] in *.
@@ -191,7 +191,7 @@ Lemma sub_wc_spec k : forall b c cy, wf k b -> wf k c ->
   val k (fst (sub_wc k b c cy)) - B k * b2z (snd (sub_wc k b c cy)) = val k b - val k c - b2z cy.
 Proof.
   induction k as [|k IH]; intros b c cy Hb Hc.
-  - cbn [sub_wc wf val B] in *. rewrite W_eq in *.
+  - cbn [sub_wc wf val B] in *. rewrite ?modW_eq, ?divW_eq in *; rewrite W_eq in *.
     destruct cy; cbn [fst snd b2z]; limb_cases; cbn [b2z]; lia.
   - destruct k as [|k].
     + destruct b as [bl bh], c as [cl ch]. destruct Hb as [Hb1 Hb2], Hc as [Hc1 Hc2].
@@ -206,11 +206,11 @@ Proof.
         destruct (sub_ddmmss h l 0 1) as [h' l']. destruct H2 as (Hh' & Hl' & E').
         cbn [fst snd]. split; [cbn [wf fst snd]; auto|].
         rewrite le_spec by (cbn [wf fst snd]; auto).
-        rewrite !val_S. cbn [val fst snd B b2z]. rewrite W_eq in *.
+        rewrite !val_S. cbn [val fst snd B b2z]. rewrite ?modW_eq, ?divW_eq in *; rewrite W_eq in *.
         destruct (Z.leb_spec (bl + 18446744073709551616 * bh) (cl + 18446744073709551616 * ch)); cbn [b2z]; lia.
       * cbn [fst snd]. split; [cbn [wf fst snd]; auto|].
         rewrite lt_spec by (cbn [wf fst snd]; auto).
-        rewrite !val_S. cbn [val fst snd B b2z]. rewrite W_eq in *.
+        rewrite !val_S. cbn [val fst snd B b2z]. rewrite ?modW_eq, ?divW_eq in *; rewrite W_eq in *.
         destruct (Z.ltb_spec (bl + 18446744073709551616 * bh) (cl + 18446744073709551616 * ch)); cbn [b2z]; lia.
     + destruct b as [bl bh], c as [cl ch]. destruct Hb as [Hb1 Hb2], Hc as [Hc1 Hc2].
       cbn [fst snd] in *.
@@ -231,7 +231,7 @@ Lemma sub_c_spec k : forall b c, wf k b -> wf k c ->
   val k (fst (sub_c k b c)) - B k * b2z (snd (sub_c k b c)) = val k b - val k c.
 Proof.
   induction k as [|k IH]; intros b c Hb Hc.
-  - cbn [sub_c wf val B fst snd] in *. rewrite W_eq in *. limb_cases; cbn [b2z]; lia.
+  - cbn [sub_c wf val B fst snd] in *. rewrite ?modW_eq, ?divW_eq in *; rewrite W_eq in *. limb_cases; cbn [b2z]; lia.
   - destruct k as [|k].
     + destruct b as [bl bh], c as [cl ch]. destruct Hb as [Hb1 Hb2], Hc as [Hc1 Hc2].
       cbn [wf fst snd] in *. cbn [sub_c fst snd].
@@ -239,7 +239,7 @@ Proof.
       destruct (sub_ddmmss bh bl ch cl) as [h l]. destruct H1 as (Hh & Hl & E).
       cbn [fst snd]. split; [cbn [wf fst snd]; auto|].
       rewrite lt_spec by (cbn [wf fst snd]; auto).
-      rewrite !val_S. cbn [val fst snd B b2z]. rewrite W_eq in *.
+      rewrite !val_S. cbn [val fst snd B b2z]. rewrite ?modW_eq, ?divW_eq in *; rewrite W_eq in *.
       destruct (Z.ltb_spec (bl + 18446744073709551616 * bh) (cl + 18446744073709551616 * ch)); cbn [b2z]; lia.
     + destruct b as [bl bh], c as [cl ch]. destruct Hb as [Hb1 Hb2], Hc as [Hc1 Hc2].
       cbn [fst snd] in *.
